@@ -199,6 +199,7 @@ struct EnvEngine : Engine {
 			inv::GenOpt go;
 			go.want_full = true;
 			go.allow_sed = true;
+			go.no_junk = true;	/* a malformed value such as 24:00:00 is a bare time: with a zone option its date comes from the clock */
 			inv::Inv iv = inv::rand_inv(r, go);
 			a = inv::inv_argv(iv);
 			size_t n = (size_t)r.range(1, 4);
